@@ -34,7 +34,7 @@ class HandlerHang(BaseException):
     (BaseException: the code under test catches Exception in several places)"""
 
 
-HANG_CPU_S = 20.0
+HANG_CPU_S = 120.0
 _wd = {'depth': 0}
 
 
